@@ -38,9 +38,15 @@ func c21(r *core.Run) {
 				if !ok {
 					return
 				}
-				// storing a bin header into the bins array (s.peers[po] = …) is a field write
-				// covered by Lk1; an element store has element type Address
-				if _, isSliceElem := ia.X.Type().Underlying().(interface{ Elem() interface{} }); isSliceElem {
+				// storing a bin header into the bins array (s.peers[po] = …): the new header
+				// must not be a truncating re-slice of an existing bin — it would keep the
+				// old backing array, and the next append would overwrite a slot that an
+				// iterator holding the longer, older header is still going to read
+				if loadsField(T, "peers")(core.Forward(ia.X)) {
+					touched = true
+					if sl, isSlice := core.Forward(x.Val).(*ssa.Slice); isSlice && sl.High != nil && fromPeers(sl.X) {
+						bad = in
+					}
 					return
 				}
 				if core.TypeName(x.Val.Type()) != "pkg/boson.Address" {
